@@ -8,6 +8,10 @@ from .common import WORK, MachineryError, dumps, sub_seed
 
 # trace spec -> (event kinds it consumes, header builder)
 PROJ = {
+    "TraceEvents": {"kinds": {"tickAll": ["funds", "fok"], "stepB": ["m", "t", "s", "funds", "mkts", "runs", "idxv", "iok", "exec"],
+                              "stepE": ["m", "t", "s", "mkts", "runs", "idxv", "iok", "exec"], "ret": ["batch"],
+                              "acc": ["m", "t", "id", "obj", "buy", "mo", "px", "vol", "ttl", "mp", "p0", "run"],
+                              "round": ["m", "t", "fills", "p0"], "abort": None}},
     "TraceClock": {"kinds": {"tickAllB": ["clocks"], "tick": ["m", "t", "idx"], "tickAll": ["clocks"],
                              "sessB": ["s", "start", "steps", "clocks"], "stepB": ["m", "t", "clocks"],
                              "stepE": ["m", "t", "clocks"], "sessE": ["s", "clocks"], "abort": None}},
@@ -37,7 +41,7 @@ def project(run, spec):
         else:
             d = {"k": k}
             for f in keep:
-                d[f] = e[f]
+                d[f] = e.get(f, -1)
             ev.append(d)
     init = next((e for e in run["ev"] if e["k"] == "init"), None)
     hdr = {"ev": ev}
@@ -49,6 +53,8 @@ def project(run, spec):
         hdr["hooks"] = init["hooks"]
         hdr["bump"] = init["bump"]
         hdr["exact"] = run["exact"]
+    if "evhdr" in run:
+        hdr.update(run["evhdr"])
     return hdr
 
 
@@ -89,8 +95,20 @@ SPECS_FOR = {
     "C10": [("TraceLog", "C10"), ("book", "C10")],
     "C13": [("TraceHooks", "C13")],
     "C06": [("TraceClock", "C06"), ("book", "C06")],
+    "C14": [("TraceEvents", "C14")],
+    "C15": [("TraceEvents", "C15")],
+    "C16": [("TraceEvents", "C16"), ("book", "C16")],
+    "C17": [("TraceEvents", "C17")],
 }
+EVENT_PROPS = ("C14", "C15", "C16", "C17")
+EVENT_KINDS = {"C14": ("fshock", "mistake", "mixed", "index"), "C15": ("plimit", "mixed", "plimit"), "C16": ("halt", "mixed", "halt"),
+               "C17": ("index", "fshock", "index")}
+N_EVENT_RUNS = {"quick": 150, "thorough": 3000}
 RULES = {
+    "C14": "distinct (market, step, fundamental value) observations at step begin in runs with fundamental shocks plus distinct accepted orders at order-mistake trigger times",
+    "C15": "distinct (market, requested price, accepted price, reference price) acceptances of limit orders in runs with a price limit rule",
+    "C16": "distinct (market, step, running flag, execution switch) observations plus distinct fills in runs with a trading halt rule",
+    "C17": "distinct (index value, component market prices) and (index fundamental, component fundamentals) observations",
     "C05": "distinct (fills of a round, holdings after it) pairs among rounds with at least one fill",
     "C11": "distinct callback events (kind, agent, market, order / fill identity) delivered to scripted agents",
     "C09": "distinct (session flags and caps, number of normal / high-frequency consultations, number of non-empty batches) step profiles",
@@ -102,10 +120,17 @@ RULES = {
 
 def build_runs(tier, seed, prop):
     from . import drive_run, scenarios_run
+    if prop in EVENT_PROPS:
+        from . import drive_events
+        return drive_events.generate(N_EVENT_RUNS[tier], sub_seed(seed, "events", prop), kinds=EVENT_KINDS[prop])
     runs = drive_run.generate(N_RUNS[tier], sub_seed(seed, "runs"))
     for r in runs:
         r["src"] = "random-config"
     runs += scenarios_run.runs_for(prop, tier, seed)
+    if prop == "C09":
+        # "no fill in a session without execution, whatever events are configured": runs with the built-in events
+        from . import drive_events
+        runs += drive_events.generate(N_EVENT_RUNS[tier] // 2, sub_seed(seed, "events", prop), kinds=("halt", "mixed", "halt", "plimit"))
     return runs
 
 
@@ -153,6 +178,20 @@ def stats(prop, runs):
                     prof[2 if e["hft"] else 1] += 1
                 elif prof and k == "ret" and e["batch"]:
                     prof[4 if e["hft"] else 3] += 1
+            elif prop == "C14":
+                if k == "stepB":
+                    seen.add((e["m"], e["t"], e["funds"][e["m"]]))
+                elif k == "acc" and r.get("evhdr") and any(x[0] == e["m"] and x[1] == e["t"] for x in r["evhdr"]["ms"]):
+                    seen.add(("mist", e["m"], e["t"], e["px"], e["vol"]))
+            elif prop == "C15" and k == "acc" and not e["mo"]:
+                seen.add((e["m"], e["px"], e["p0"], e.get("rqf")))
+            elif prop == "C16":
+                if k == "stepB":
+                    seen.add((e["m"], e["t"], e["run"], e["exec"]))
+                elif k == "round" and e["fills"]:
+                    seen.add(("fill", e["m"], e["t"], e["fills"][-1][2]))
+            elif prop == "C17" and k in ("stepB", "tickAll") and any(x >= 0 for x in e.get("idxv", [])):
+                seen.add((json.dumps(e["idxv"]), json.dumps(e["mkts"]), json.dumps(e["funds"])))
             elif prop == "C06" and k in ("stepB", "sessB", "tickAll"):
                 seen.add((json.dumps(r["cfg"]["simulation"]["sessions"] if "cfg" in r else 0)[:200], k, json.dumps(e.get("clocks"))))
         if prof:
@@ -201,6 +240,9 @@ def check(prop, tier, seed, t0):
     viol, known, lines = judge.judge(prop, cases)
     for ln in lines:
         print(ln)
+    if os.environ.get("VERIF_DEBUG"):
+        import collections
+        print("clauses:", collections.Counter(judge.clause_of(c["verdict"]) for c in cases if c["verdict"] != "ok").most_common())
     nontriv, nev = stats(prop, runs)
     aborted = sum(1 for r in runs if r["abort"])
     cov = {
